@@ -24,6 +24,7 @@ func init() {
 			for _, v := range ref.RpmVectors {
 				g = append(g, v[0], v[1])
 			}
+			g = gen.Alt(g, gen.Seq(gen.Lit("1.0-1", "1.0-2", "1.0.1-1", "1:1.0-1"), gen.Lit("^git1", "^1", "~pre", "^git1~pre", "~", "^", ".^1", "^.1")))
 			m := gen.Magnitudes
 			g = gen.Alt(g, gen.Seq(gen.Lit("1.", "1-", "1a", "1:1.", "1~", "1^"), m), gen.Seq(m, gen.Lit(":1", "", "-1", ".1", "a")), gen.Seq(gen.Lit("1.", "1-", "1a", "1~", "1^"), gen.LeadingZeros), gen.Seq(gen.Lit("1.", "1-"), gen.Lit("7", "8", "9", "10", "11")))
 			return g
